@@ -311,6 +311,7 @@ class ValueGen:
         self.layouts = layouts
         self.decimal_limits = decimal_limits
         self.big_fixed = False
+        self.array_len = {}     # node key -> the number of items every value of that array node gets (directed families)
 
     def terminating(self, k, seen=()):
         """can a value of node k be finite without descending further than necessary"""
@@ -360,6 +361,8 @@ class ValueGen:
             return "(string %s)" % hx(rand_str(rng))
         if kind == "array":
             cnt = 0 if deep else rng.choice([0, 0, 1, 2, 3, 5])
+            if k in self.array_len and (not deep or self.array_len[k] == 0):
+                cnt = self.array_len[k]
             its = [self.gen(n.items, depth + 1) for _ in range(cnt)]
             if any(x is None for x in its):
                 its = []
